@@ -101,7 +101,21 @@ pub fn module_for(id: &str, spec: &EnumSpec) -> ModuleSrc {
     }
 }
 
+/// every fifth program of a corpus is rewritten into its *plain* form (documented constructs, ordinary spelling)
+/// where that is possible: for those a rejection by the derive itself is a violation too (see vmodel::plain)
 pub fn plan(id: &str, tier: &str, seed: u64, round: u64) -> Plan {
+    let mut p = plan_inner(id, tier, seed, round);
+    if !matches!(id, "C07") {
+        for (i, s) in p.specs.iter_mut().enumerate() {
+            if i % 5 == 2 {
+                gen::plainify(s);
+            }
+        }
+    }
+    p
+}
+
+fn plan_inner(id: &str, tier: &str, seed: u64, round: u64) -> Plan {
     let thorough = tier == "thorough";
     let mut rg = Rg::from_seed(vmodel::derive_seed(seed, id, round, 0x9e37));
     match id {
